@@ -51,7 +51,7 @@ def token_constructs(node, enum_suffix):
 
 def main_match(F, fn):
     b = F.body(fn)
-    ms = [m for m in hirq.matches(b["hir"]) if hirq.local_name_of(m["scrut"]) == "x" and len(m["arms"]) > 20]
+    ms = [m for m in hirq.matches(b["hir"]) if hirq.local_name_of(m["scrut"]) == "x" and hirq.n_alts(m) > 20]
     if len(ms) != 1:
         raise AnchorMissing("main `match x` of %s not found (%d candidates)" % (fn, len(ms)))
     return b, ms[0]
@@ -138,7 +138,7 @@ class LexTables:
             self._keywords(F)
 
     def _keywords(self, F):
-        kms = [m for m in hirq.matches(self.ident_arm["body"]) if len(m["arms"]) >= 20]
+        kms = [m for m in hirq.matches(self.ident_arm["body"]) if hirq.n_alts(m) >= 20]
         if len(kms) != 1:
             raise AnchorMissing("keyword match not found in %s" % self.fn)
         self.keyword_match = kms[0]
